@@ -60,13 +60,17 @@ func takesStateParam(a *locAnchors, fn *ssa.Function) bool {
 
 // runGateRule evaluates one gate kind over all entry points.
 func runGateRule(w *World, r *Report, a *locAnchors, rule string, gates []gateSpec, sinks map[string]bool, doc string, floor int) {
-	r.Rule(rule, doc, floor)
-	isSink := func(in ssa.Instruction) (string, bool) {
+	runGateRuleSink(w, r, a, rule, gates, func(in ssa.Instruction) (string, bool) {
 		if isPropReader(in.Parent()) {
 			return "", false
 		}
 		return a.stateCall(in, sinks)
-	}
+	}, doc, floor)
+}
+
+// runGateRuleSink: as runGateRule, with an arbitrary sink predicate.
+func runGateRuleSink(w *World, r *Report, a *locAnchors, rule string, gates []gateSpec, isSink func(in ssa.Instruction) (string, bool), doc string, floor int) {
+	r.Rule(rule, doc, floor)
 	skip := func(fn *ssa.Function) bool {
 		return a.inStateLayer(fn) || isTestFile(w, fn) || ungatedByDesign(rule, outermost(fn))
 	}
@@ -407,4 +411,20 @@ func init() {
 		},
 		Rules: []ruleFn{ruleGateW, ruleGateR, ruleGateE, ruleGateUntrusted, ruleGateKeys, rulePropCanon, rulePropMarker},
 	})
+}
+
+// GATE-FIRE (C10): in a disabled location no rule fires.
+func ruleGateFire(w *World, r *Report) {
+	a := newLocAnchors(w)
+	_, _, en := locGates(a)
+	exec := w.Method("core", "Location", "ExecAction")
+	isSink := func(in ssa.Instruction) (string, bool) {
+		c := callOf(in)
+		if c == nil || c.StaticCallee() != exec {
+			return "", false
+		}
+		return "Location.ExecAction", true
+	}
+	runGateRuleSink(w, r, a, "GATE-FIRE", []gateSpec{en}, isSink,
+		"every path from an entry (an exported Location method, or a root such as a script callback or a goroutine) to the execution of a rule's action (a call of Location.ExecAction) passes the true edge of Location.Enabled: in a disabled location no rule fires, whether it was found by search, loaded for a trigger or embedded in the event itself", 2)
 }
